@@ -79,7 +79,15 @@ var registry = map[string]func(t *testing.T, c *Collector){
 		runSeqScenarios(c, c11Scenarios(c.job.Tier))
 	},
 	"C08": func(t *testing.T, c *Collector) { runC08(c) },
-	"C14": func(t *testing.T, c *Collector) { runC14(c) },
+	"C14": func(t *testing.T, c *Collector) {
+		runC14(c)
+		engine, rule, bound := c.res.Engine, c.res.Rule, c.res.Bound
+		scs := c14ConcScenarios(c.job.Tier)
+		runConcScenarios(t, c, scs)
+		c.res.Engine = engine + " + A (two threads on one FileCache, all interleavings at lock / file-system-call granularity)"
+		c.res.Rule = rule + "; concurrent part: 6 two-thread programs x capacities 0-2, every handle must be readable by its holder until it releases it, invariants at quiescence"
+		c.res.Bound = bound + fmt.Sprintf("; %d concurrent scenarios with preemption bound %d", len(scs), scs[0].Bound)
+	},
 	"C17": func(t *testing.T, c *Collector) {
 		c.res.Rule = "all interleavings (<= bound preemptions) of Close with the real flusher goroutine and both GC goroutines, with ticks of the fake clock placing a flush, a primary-GC cycle and/or an index-GC cycle in progress, optionally a concurrent writer; oracle at the moment Close returns: nil error, no goroutine executing store code (runtime.Stack census), 0 open descriptors (MemFS ledger); after 3x the GC interval of fake time: no file-system mutation, census still empty; the directory reopens as a linearization of the acknowledged calls, also after a further GC round; plus failing opens and 20 open/close cycles (sequential); non-trivial = two threads alternated on the same lock or file"
 		scs := c17Scenarios(c.job.Tier)
